@@ -172,13 +172,23 @@ def check_lexer_pairing(run: Run) -> None:
             for i in ids:
                 for cond, pol in branch_conditions(cfg, i):
                     facts |= set(conjuncts(cond, pol))
-            v = _text(n.value)
+            val = n.value
+            # `<marker> if <cond> else None`: the marker is set under <cond> (a local bound once stands for its definition)
+            if isinstance(val, ast.IfExp) and isinstance(val.orelse, ast.Constant) and val.orelse.value is None:
+                test = val.test
+                if isinstance(test, ast.Name):
+                    defs = [a.value for a in walk_no_nested(fi.node) if isinstance(a, ast.Assign) and len(a.targets) == 1 and isinstance(a.targets[0], ast.Name) and a.targets[0].id == test.id]
+                    if len(defs) == 1:
+                        test = defs[0]
+                facts = facts | set(conjuncts(test, True))
+                val = val.body
+            v = _text(val)
             if v == "matched_text":
                 ok = "matched_text in ASCII_ALIASES" in facts
                 why = "under `matched_text in ASCII_ALIASES`"
-            elif isinstance(n.value, ast.Constant) and isinstance(n.value.value, str):
-                ok = any(f == f"matched_text.startswith({n.value.value!r})" for f in facts)
-                why = f"under `matched_text.startswith({n.value.value!r})`"
+            elif isinstance(val, ast.Constant) and isinstance(val.value, str):
+                ok = any(f == f"matched_text.startswith({val.value!r})" for f in facts)
+                why = f"under `matched_text.startswith({val.value!r})`"
             else:
                 ok, why = False, "unrecognised source"
             run.instance("R07.4", lx.loc(n), f"normalized_from = {v} {why if ok else 'NOT ' + why}", ok=ok)
